@@ -10,6 +10,9 @@ type planItem struct {
 	Scenario, Stratum string
 	Quick, Thorough   int // number of runs
 	PerJob            int
+	// Combos: the runs of this item are not drawn but enumerated: run i gets
+	// stratum "combo:i" (Quick/Thorough then give the number of combinations)
+	Combos bool
 }
 
 type propPlan struct {
@@ -168,7 +171,45 @@ func init() {
 		Rule: "evaluations = seeded simulated runs. 'core-mtu': raw cores, KCP.SetMtu with any int (negative, 0, around the header size, 50..1500, above the packet-buffer size, huge) before traffic ('initial') or at seeded points during traffic with data queued and in flight; every size handed to the output callback must be in (0, MTU in force], a refused value leaves the previous MTU in force, and a library panic is a violation. 'sess-mtu': the same at session level under every cipher/FEC overhead combination, with OOB sent at GetOOBMaxSize(), +1 and -1; every datagram handed to the simulated PacketConn is measured against the MTU in force (datagrams already queued for post-processing at the moment of the call are still allowed the old MTU). A worker-process crash is attributed to its run through the journal. Non-trivial = at least one SetMtu was accepted in the run and payload was delivered; distinct = distinct event-log hashes",
 		Real: realSession, Stub: stubSession,
 		Assumptions: append([]string{"finding recorded in known_findings.txt: FEC parity of a group that straddles an MTU reduction exceeds the new MTU; stratum 'parity-straddle' provokes and reports it, the other strata count it as a probe and continue"}, assumeCommon...),
-		WantProbes: []string{"setmtu-accepted", "setmtu-refused", "setmtu-shrink-with-data-queued", "setmtu-accepted-above-buffer-size", "oob-sent-at-max"},
-		nontrivial: func(r *proto.RunResult, nf int) bool { return r.Progress && (r.Probes["setmtu-accepted"] > 0 || r.Scenario == "xfer") },
+		WantProbes:  []string{"setmtu-accepted", "setmtu-refused", "setmtu-shrink-with-data-queued", "setmtu-accepted-above-buffer-size", "oob-sent-at-max"},
+		nontrivial: func(r *proto.RunResult, nf int) bool {
+			return r.Progress && (r.Probes["setmtu-accepted"] > 0 || r.Scenario == "xfer")
+		},
+	}
+	plans["C07"] = &propPlan{
+		Level: "fault_enumeration",
+		Items: []planItem{
+			// (d,p) with d+p <= 5 (quick: 10 pairs) / <= 6 (thorough: 15 pairs) x 5 size vectors x 3 placements x 3 duplicate modes
+			{Scenario: "fec-enum", Stratum: "combo", Quick: 450, Thorough: 675, PerJob: 8, Combos: true},
+			{Scenario: "fec-stream", Stratum: "", Quick: 1500, Thorough: 60000, PerJob: 32},
+			{Scenario: "fec-stream", Stratum: "small", Quick: 800, Thorough: 30000, PerJob: 32},
+			{Scenario: "xfer", Stratum: "fec", Quick: 250, Thorough: 8000, PerJob: 8},
+			{Scenario: "xfer", Stratum: "fec-noparity", Quick: 150, Thorough: 4000, PerJob: 8},
+			{Scenario: "xfer", Stratum: "fec-completing", Quick: 150, Thorough: 4000, PerJob: 8},
+		},
+		QuickBudget: 60 * time.Second, ThoroughBudget: 25 * time.Minute, CountCases: true,
+		Rule: "fault_enumeration part ('fec-enum'): for EVERY (dataShards, parityShards) with d+p <= 5 (quick) / <= 6 (thorough), every one of 5 payload-size vectors (equal, increasing, one long, seeded random, mixed), 3 placements (first group, middle of the id space, last group before the id wrap value; with complete neighbour groups before and after) and 3 duplicate modes, ALL subsets of the group's packets that arrive x ALL arrival orders are fed to the real decoder (packets produced by the real encoder): enumerated_cases counts (subset, order) cases; at the first step where d distinct packets have arrived the decoder must return exactly the missing data packets, byte for byte with exact length, and nothing it ever returns may differ from an original data packet of that group followed by zero padding. Sampled part ('fec-stream', 'xfer/fec*'): streams of groups through seeded loss/duplication/reordering/sender pauses (parity skipping), (d,p) up to d+p=255, ids crossing 2^31 and the wrap value, and full sessions with parity-aware targeted loss (all parity dropped; one data packet of every other group dropped) decided by the stream oracle. evaluations = enumerated cases + sampled runs; distinct_nontrivial = distinct event-log hashes of runs in which a fault fired (or, for enumeration runs, all of them - each run is a distinct combination)",
+		Real: []string{"fecEncoder and fecDecoder (fec.go) with klauspost/reedsolomon", "auto-tuner (autotune.go)", "buffer pool call sites (sanitizer via H4)", "in the xfer strata: the whole session stack"}, Stub: []string{"channel between encoder and decoder (seeded loss / duplication / bounded reordering)", "OS clock (testing/synctest fake clock; drives parity skipping)"},
+		Assumptions: append([]string{"'still among the few most recent groups' is taken as: at most 2 groups behind the newest group seen (strictly inside the implementation's horizon, so the model does not mirror its constant)", "re-emitting a genuine data packet after duplicates or late parity refill a group is legal (the statement forbids only non-original output) and is counted as a probe"}, assumeCommon...),
+		WantProbes:  []string{"fec-recovered", "fec-re-emission", "fec-id-wrap-crossed", "fec-parity-skipped", "parity-drop", "group-data-drop"},
+		nontrivial:  func(r *proto.RunResult, nf int) bool { return r.Progress && (nf > 0 || r.Scenario == "fec-enum") },
+		Exhaustive:  func(tier string) bool { return false },
+	}
+	plans["C16"] = &propPlan{
+		Level: "exploration",
+		Items: []planItem{
+			{Scenario: "fec-stream", Stratum: "mismatch", Quick: 1200, Thorough: 50000, PerJob: 32},
+			{Scenario: "fec-stream", Stratum: "mismatch-small", Quick: 1200, Thorough: 50000, PerJob: 32},
+			{Scenario: "fec-stream", Stratum: "mismatch-targeted", Quick: 300, Thorough: 10000, PerJob: 32},
+			{Scenario: "fec-stream", Stratum: "", Quick: 800, Thorough: 30000, PerJob: 32},
+			{Scenario: "xfer", Stratum: "mismatch", Quick: 300, Thorough: 8000, PerJob: 8},
+			{Scenario: "xfer", Stratum: "mismatch-targeted", Quick: 60, Thorough: 600, PerJob: 8},
+		},
+		QuickBudget: 60 * time.Second, ThoroughBudget: 25 * time.Minute,
+		Rule: "evaluations = seeded simulated runs. Codec level ('fec-stream'): sender ratio (d1,p1), receiver ratio (d2,p2) drawn small (1..4 each, 'mismatch-small') or up to d+p=255, any starting id (including ids >= 2^31 and runs crossing the wrap value) and phase, seeded loss/duplication/reordering/parity skipping before convergence, and the targeted pattern that drops exactly the packets whose type contradicts the receiver's expectation; after an uninterrupted run of 258+2(d1+p1) packets the decoder's effective ratio (hook H1) must be the sender's, from then on soundness and completeness of C07 are demanded and the ratio must stay; stratum '' runs matching ratios and demands that no pattern of genuine packets ever changes the ratio or suspends decoding. Session level ('xfer/mismatch*'): the two ends use different ratios (or FEC at one end only) under loss; the stream oracle decides 'delivers the stream intact'. Non-trivial = a fault fired and packets reached the decoder; distinct = distinct event-log hashes",
+		Real: []string{"fecEncoder and fecDecoder (fec.go)", "auto-tuner (autotune.go)", "in the xfer strata: the whole session stack"}, Stub: []string{"channel between encoder and decoder", "OS clock (fake)"},
+		Assumptions: append([]string{"at codec level, what a decoder returns while it still uses a ratio that is not the sender's is only counted (probe non-original-output-under-wrong-ratio): the property promises an intact stream, which the session-level strata decide", "finding recorded in known_findings.txt: under a ratio mismatch a parity packet that happens to be consistent with the receiver's own layout is decoded before the receiver can know better; the Reed-Solomon interpolation keeps the header bytes the combined packets share, passes KCP's checks and its payload is delivered as stream data. Strata xfer/mismatch and xfer/mismatch-targeted provoke and report it"}, assumeCommon...),
+		WantProbes:  []string{"fec-converged", "fec-recovered", "targeted-drop", "non-original-output-under-wrong-ratio", "fec-recovery-under-wrong-ratio"},
+		nontrivial:  func(r *proto.RunResult, nf int) bool { return r.Progress && nf > 0 },
 	}
 }
